@@ -236,7 +236,7 @@ ExecCall(E, c, m, i) ==
     ELSE LET fd == h.fd  mp == E.maps[fd]  k == KeyOf(E, c, m, fd) IN
          IF k[1] = "bad" THEN Ret(Fault(c, "helper-bad-key-pointer"), m)
          ELSE IF k[1] = "uninit" THEN Ret(Fault(c, "helper-uninit-key"), m)
-         ELSE IF mp.type = "array" THEN
+         ELSE IF mp.type \in {"array", "percpu"} THEN     \* one copy: all instances on one CPU
              LET ix == WZext(k[2], 8) IN
              IF f = 1 THEN
                  IF WFitsU31(ix) /\ WToS32(ix) < mp.max
@@ -294,9 +294,12 @@ RunF(E, c, m, fuel) ==
     ELSE RunS(E, StepF(E, c, m), fuel - 1)
 RunS(E, r, fuel) == RunF(E, r.c, r.m, fuel)
 
-(* initial cpu: r1 = context, r10 = frame pointer, everything else unwritten *)
-Cpu0(prog) == [pc |-> 0, st |-> <<"run">>, cur |-> prog, orc |-> 0, tail |-> 0,
-               reg |-> [r \in 0 .. 10 |-> IF r = 1 THEN P(RCtx, 0) ELSE IF r = 10 THEN P(RStack, 0) ELSE U]]
+(* initial cpu: r1 = context, r10 = frame pointer, everything else unwritten.  CpuN gives an
+   instance its own stack region Rg("stack", i, <<>>) so that several instances of a program can
+   run over one shared memory (instances never tail-call: that path resets RStack).           *)
+CpuN(prog, stack) == [pc |-> 0, st |-> <<"run">>, cur |-> prog, orc |-> 0, tail |-> 0,
+               reg |-> [r \in 0 .. 10 |-> IF r = 1 THEN P(RCtx, 0) ELSE IF r = 10 THEN P(stack, 0) ELSE U]]
+Cpu0(prog) == CpuN(prog, RStack)
 FreshStack == Mat([k \in 1 .. 512 |-> -1], 512)
 Exited(c) == c.st = <<"exit">>
 Faulted(c) == c.st[1] = "fault"
